@@ -800,9 +800,28 @@ func (vc *VC) builtin(st *State, v *ssa.Call, b *ssa.Builtin, cc *ssa.CallCommon
 	case "print", "println":
 	case "ssa:wrapnilchk":
 		vc.define(v, args[0])
+	case "StringData":
+		// unsafe.StringData / unsafe.String: str_of(str_data(s), len s) == s  (assumed, listed in the trusted base)
+		vc.unsafeStrings()
+		vc.define(v, Term{S: sx("str_data", args[0].S), Sort: "Int"})
+	case "String":
+		vc.unsafeStrings()
+		vc.define(v, Term{S: sx("str_of", args[0].S, args[1].S), Sort: "Str"})
 	default:
 		vc.failf("unsupported builtin %s", b.Name())
 	}
+}
+
+func (vc *VC) unsafeStrings() {
+	if vc.declared["str_data"] {
+		return
+	}
+	vc.declareFun("str_data", []string{"Str"}, "Int")
+	vc.declareFun("str_of", []string{"Int", "Int"}, "Str")
+	vc.preamble = append(vc.preamble,
+		"(assert (forall ((s Str)) (! (= (str_of (str_data s) (slen s)) s) :pattern ((str_data s)))))",
+		"(assert (forall ((s Str)) (! (>= (str_data s) 0) :pattern ((str_data s)))))")
+	vc.note("unsafe.StringData/unsafe.String are modelled by str_of(str_data(s), len(s)) == s")
 }
 
 // appendOp models append(s, t...).
